@@ -23,7 +23,9 @@ TRUSTED = [
     "translator/cli_table.py (fail-closed ast translator; its output Gen/CliTable.v is plain data re-checked by the kernel on every run)",
     "model Model/CliRun.v of the whole `reconcile` command on binary inputs (read_input -> label_internal -> dispatch -> solver models of C01-C03/C07 -> "
     "'Minimum cost' = evaluator on one result -> one to_dict per result through Model/Serial.v); the association key -> solver function is written in the model "
-    "(the generated table only carries the annotations) and is tied to the code by the cli_pipeline batch",
+    "(the generated table only carries the annotations) and is tied to the code by the cli_pipeline batch; the evaluator glue at the end of that file "
+    "(parse_back, to_rtree, to_ltree, eval_routput, eval_soutput, eval_result, own_num) and output_events (Proofs/C11EvalProofs.v) model from_dict + cost() / node_event "
+    "and are tied to them by the cli_glue batch",
 ]
 ASSUMES = [
     "ete3: Newick reader/writer (format 1 / 8), traverse('preorder') order, `name in tree` = some node carries that name, iteration over a tree = its leaves",
@@ -39,22 +41,36 @@ RULE = ("label cases: rose trees (arity 1-4) whose nodes are unnamed / 'NoName' 
         "CLI cases: random documented-format inputs (binary trees, 2-5 object leaves on 2-4 species, ancestors unnamed / partially / fully named incl. look-alikes, "
         "leaf_object_species given or left to the <species>_<id> convention, with/without leaf_syntenies, a few polytomies for ext_spfs/superdtl) x 7 algorithms "
         "(plus unknown keys) x cost options, each run under both policies, in-process and (a sample) as `python -m superrec2.cli`; "
-        "non-trivial = the algorithm ran and the input had an unnamed ancestor")
+        "non-trivial = the algorithm ran and the input had an unnamed ancestor; "
+        "glue cases: every distinct line written by the status-0 runs of the pipeline cases (binary inputs, integer unit costs), with the minimum printed by that run; "
+        "non-trivial = the line parses back and its object tree has at least two internal nodes")
 OPEN_GOALS: list = []
 TECHNIQUE = ("Coq proofs (induction on the pre-order name list, pigeonhole bound for the skipping counter, reflection over the generated dispatch table) of the naming and dispatch laws; "
              "models tied to the code by random correspondence evaluated with vm_compute; process-level clauses checked end-to-end on the same sample")
-LEVEL_TEXT = ("Whole command on binary inputs (Model/CliRun.v): for input files with the leaf mapping given or inferred from the <species>_<id> convention (cli_wf_any), every written object parses back to a solution whose evaluated cost is the printed minimum, objects are pairwise distinct and one per solver result, written trees have pairwise distinct non-empty names with given names untouched and O#/S# elsewhere, all contains any with the same minimum inside the coherent region, super-reconciliation without syntenies writes nothing. Machine-checked for trees of any size and shape: label_internal terminates, keeps the shape and every given name, gives every unnamed node a non-empty generated name "
+LEVEL_TEXT = ("Machine-checked for trees of any size and shape: label_internal terminates, keeps the shape and every given name, gives every unnamed node a non-empty generated name "
               "with strictly increasing, minimal indices in pre-order, all names pairwise distinct when the given ones are, and is idempotent; get_species_mapping picks the first "
               "underscore-terminated prefix that names a species (case-insensitive); over the table regenerated from cli/reconcile.py the seven documented keys are present, every "
               "super-reconciliation algorithm without syntenies is refused and every other combination runs. "
-              "For the pipeline model of the whole command on binary inputs (Model/CliRun.v, Proofs/CliRunProofs.v): every written object parses back (C11 reader) to a solution on the "
-              "re-read input whose evaluated cost is the printed minimum cost (any unit costs with a non-negative transfer cost; the evaluator's numbering of the families is irrelevant); "
-              "inside the coherent region of each DP solver everything written under --solutions any is written under --solutions all and both print the same minimum; both trees of every "
-              "object are the label_internal images of the input trees; a super-reconciliation algorithm without syntenies ends in Error (status 1, nothing written). "
-              "Sampled only (correspondence, not proof): that the real tool behaves as the pipeline model (exit status, printed minimum, set of JSON objects - batch cli_pipeline), "
-              "draw accepting every object, polytomous inputs end to end.")
+              "Whole command, for the pipeline model on binary inputs (Model/CliRun.v, Proofs/CliRunProofs.v): every theorem of this paragraph except the last one is CONDITIONAL on the "
+              "model's run ending with status 0 (premise `cli_run x = CliOk warned m objs`); no theorem says for which input files the command succeeds (the model may also end in "
+              "CliRaise, CliNoSolution or CliOutOfModel), so 'for every input file ... writes one JSON object per solution' is proved only as 'whenever it writes, then ...'; that the "
+              "runs of the sample do succeed, and end as the real tool does, is sampled by the cli_pipeline batch, not proved. Under that premise, for input files with the leaf "
+              "mapping given or inferred from the <species>_<id> convention (cli_wf_any) and any integer unit costs whose transfer cost is not minus infinity (premise `nn (c_hgt)`, "
+              "`nn x` := x <> -inf: a finite transfer cost of either sign or +infinity; no sign condition is needed for this clause): every written object parses back (C11 reader) "
+              "to a solution on the re-read input whose evaluated cost `eval_result (own_num r) r` is the printed minimum cost (the evaluator's numbering of the families is irrelevant); "
+              "the objects are pairwise distinct and one per solver result; the written trees have pairwise distinct non-empty names, given names untouched and O#/S# elsewhere, and are "
+              "the label_internal images of the input trees; inside the coherent region of each DP solver everything written under --solutions any is written under --solutions all and "
+              "both print the same minimum. Without a success premise: a super-reconciliation algorithm without syntenies ends in Error (status 1) or with an exception of read_input, "
+              "and never writes anything. "
+              "Sampled only (correspondence, not proof): that the real tool behaves as the pipeline model (exit status, printed minimum, set of JSON objects - batch cli_pipeline); that "
+              "the evaluator glue in which the cost theorems are stated (parse_back, eval_result = eval_routput / eval_soutput over to_rtree / to_ltree / own_num, and output_events) "
+              "computes what the package's from_dict(...).cost() and node_event compute, on every line the real tool wrote in that sample (batch cli_glue, exact comparison); "
+              "draw accepting every object; polytomous inputs end to end.")
 LEVEL_NOTE = ("Trusted: Coq kernel; the hand-written models and the translator (differential testing on the explored domain); ete3/json/argparse behaviour. "
-              "The cost and all/any clauses are theorems about the pipeline model (composition of C01-C03/C05/C07, C06 and C11), tied to the real command by the cli_pipeline batch. "
+              "The cost and all/any clauses are theorems about the pipeline model (composition of C01-C03/C05/C07, C06 and C11), tied to the real command by the cli_pipeline batch "
+              "(endings, printed minimum, written dictionaries) and the cli_glue batch (the evaluator that reads a written dictionary back: cost and node events against the real classes). "
+              "They are success-conditional (premise CliOk): totality of the command on well-formed input files is sampled, not proved. "
+              "`nn` in the statements means 'not minus infinity' (Proofs/ThlProofs.v), not 'non-negative'. "
               "Theorems are about the repaired read_input (fix D7).")
 
 SUPER_ALGOS = ("base_spfs", "ext_spfs", "base_uspfs", "superdtl")     # documented super-reconciliation algorithms
@@ -844,7 +860,7 @@ def batches(ctx):
                   "and 'all process-level clauses hold'"),
     )
 
-    # ---- 4. the whole pipeline against Model/CliRun.v ----------------------------------
+    # ---- 4./5. the whole pipeline against Model/CliRun.v, then its evaluator glue against from_dict(...).cost() ----
     yield from pipeline_batches(ctx)
 
 
@@ -852,7 +868,7 @@ def batches(ctx):
 # cli_pipeline: `reconcile` end to end against the pipeline model Model/CliRun.v
 # (read_input -> label_internal -> dispatch -> solver -> "Minimum cost" -> one dictionary per solution)
 
-PIPE_FILES = ["Model/CliRun.v", "Proofs/CliRunProofs.v"]
+PIPE_FILES = ["Model/CliRun.v", "Proofs/CliRunProofs.v", "Proofs/C11EvalProofs.v"]     # the last one for output_events (batch cli_glue)
 
 PIPE_HEADER = """From Coq Require Import String Ascii.
 From SR Require Import Base.Ext Model.Entry Model.Recon Model.Label Model.Newick Model.Serial Model.CliRun.
@@ -1052,6 +1068,117 @@ def enc_pipe_out(c, res):
     return cpair(enc_pipe_result(res["any"]), enc_pipe_result(res["all"]))
 
 
+# ---------------------------------------------------------------------------
+# cli_glue: the evaluator glue of Model/CliRun.v against the package's own from_dict(...).cost() / node_event.
+# The whole-command theorems (C12_cli_objects_parse_back*) conclude `eval_result (own_num r) r = Some m` for the r with
+# `parse_back d = Some r`; this batch evaluates exactly that expression on every line the IMPLEMENTATION wrote in the
+# cli_pipeline batch and compares it with what the real classes compute on the same line.
+
+GLUE_HEADER = PIPE_HEADER + """From SR Require Proofs.ReconProofs Proofs.C11EvalProofs.
+Definition rev_eqb (a b : Recon.ev) : bool :=
+  match a, b with
+  | Recon.Spe, Recon.Spe | Recon.Dup, Recon.Dup | Recon.TrL, Recon.TrL | Recon.TrR, Recon.TrR | Recon.Inv, Recon.Inv => true
+  | _, _ => false
+  end.
+(* outer None: from_dict raises; cost None: .cost() raises; events None: node_event raises (KeyError, not binary) *)
+Definition glue_out := (option (option ext * option (list Recon.ev)) * bool)%type.
+Definition routput_of (r : Serial.routput + Serial.soutput) : Serial.routput :=
+  match r with inl x => x | inr x => Serial.s_out x end.
+(* the last component: "the implementation's numbers are integers or infinities" (always so in the model) *)
+Definition run_glue (d : out_obj) : glue_out :=
+  (option_map (fun r => (eval_result (own_num r) r, C11EvalProofs.output_events (routput_of r))) (parse_back d), true).
+Definition glue_eqb (a b : glue_out) : bool :=
+  opt_eqb (pair_eqb (opt_eqb ext_eqb) (opt_eqb (list_eqb rev_eqb))) (fst a) (fst b) && Bool.eqb (snd a) (snd b).
+"""
+
+GLUE_EV = {"SPECIATION": "Recon.Spe", "DUPLICATION": "Recon.Dup", "TRANSFER_KEEP_LEFT": "Recon.TrL",
+           "TRANSFER_KEEP_RIGHT": "Recon.TrR", "INVALID": "Recon.Inv"}
+
+
+def impl_glue(c):
+    """the real classes on one written line: from_dict, cost(), node_event of every internal node in pre-order"""
+    M = _cli()["M"]
+    try:
+        d = json.loads(c["line"])
+        cls = M.SuperReconciliationOutput if "syntenies" in d else M.ReconciliationOutput
+        x = cls.from_dict(d)
+    except Exception as e:  # noqa: BLE001 - part of the observation
+        return {"parsed": False, "error": type(e).__name__}
+    out = {"parsed": True}
+    try:
+        v = x.cost()
+        out["cost_text"] = str(v)
+        if isinstance(v, bool):
+            out["cost"] = "odd:" + repr(v)
+        elif isinstance(v, int):
+            out["cost"] = v
+        elif v == float("inf"):                     # a float, or the `infinity` package's object
+            out["cost"] = "inf"
+        elif v == float("-inf"):
+            out["cost"] = "-inf"
+        else:
+            out["cost"] = "odd:" + repr(v)          # a float where integer unit costs were given, or nan
+    except Exception as e:  # noqa: BLE001
+        out["cost"] = "exc:" + type(e).__name__
+        out["cost_text"] = out["cost"]
+    try:
+        evs = []
+        rec, lca = x.object_species, x.input.species_lca
+        for node in x.input.object_tree.traverse("preorder"):
+            if node.is_leaf():
+                continue
+            e = x.node_event(node).name
+            if e == "HORIZONTAL_TRANSFER":
+                # the child that stays in the lineage, as _cost_rec decides it (dist_conserved)
+                e = "TRANSFER_KEEP_LEFT" if lca.is_ancestor_of(rec[node], rec[node.children[0]]) else "TRANSFER_KEEP_RIGHT"
+            evs.append(e)
+        out["events"] = evs
+    except Exception as e:  # noqa: BLE001
+        out["events"] = "exc:" + type(e).__name__
+    return out
+
+
+def enc_glue_in(c):
+    return _enc_obj(json.loads(c["line"]))
+
+
+def enc_glue_out(c, r):
+    if not r["parsed"]:
+        return cpair("None", "true")
+    expressible = True
+    v = r["cost"]
+    if isinstance(v, int) and not isinstance(v, bool):
+        cost = f"(Some (Fin {core.cZ(v)}))"
+    elif v == "inf":
+        cost = "(Some PInf)"
+    elif v == "-inf":
+        cost = "(Some NInf)"
+    elif isinstance(v, str) and v.startswith("exc:"):
+        cost = "None"
+    else:
+        cost, expressible = "None", False
+    evs = r["events"]
+    if isinstance(evs, list) and all(e in GLUE_EV for e in evs):
+        events = "(Some " + clist(GLUE_EV[e] for e in evs) + ")"
+    elif isinstance(evs, str):
+        events = "None"
+    else:
+        events, expressible = "None", False
+    return cpair(f"(Some ({cost}, {events}))", cbool(expressible))
+
+
+def oracle_glue(c, r):
+    """property text: each written object parses back to a solution whose cost is the printed minimum cost"""
+    if not r["parsed"]:
+        return False, f"the written object does not parse back ({r['error']}): {c['line'][:200]}"
+    if isinstance(r["cost"], str) and r["cost"].startswith("exc:"):
+        return False, f"cost() of the parsed-back object raises {r['cost'][4:]}"
+    if not same_cost(r["cost_text"], c["printed"]):
+        return False, (f"{c['algo']} --solutions {c['policy']}: the parsed-back object costs {r['cost_text']} "
+                       f"but the printed minimum cost is {c['printed']}")
+    return True, "the parsed-back object's cost is the printed minimum cost"
+
+
 def pipeline_batches(ctx):
     rng = ctx.rng
     quick = ctx.quick()
@@ -1084,12 +1211,19 @@ def pipeline_batches(ctx):
 
     seen = {"endings": {}, "objects_compared": 0, "max_objects_all": 0}
     ctx.dist["cli_pipeline_observed"] = seen
+    written = {}       # (canonical line, printed minimum) -> case of the cli_glue batch
 
     def enc_out_counted(c, res):          # runs in the parent process: the observations survive
         lit = enc_pipe_out(c, res)
         for pol in ("any", "all"):
             e = enc_pipe_result(res[pol]).split(" ")[0].lstrip("(")
             seen["endings"][e] = seen["endings"].get(e, 0) + 1
+            if e == "CliOk":                  # every line the tool wrote goes to the cli_glue batch below
+                for line in res[pol]["stdout"].splitlines():
+                    key = (canon(line), printed_cost(res[pol]["stderr"]))
+                    if key not in written:
+                        written[key] = {"k": len(written), "from_case": c["k"], "algo": c["algo"], "policy": pol,
+                                        "line": line, "printed": key[1]}
         n = len(res["all"]["stdout"].splitlines())
         seen["objects_compared"] += n + len(res["any"]["stdout"].splitlines())
         seen["max_objects_all"] = max(seen["max_objects_all"], n)
@@ -1124,6 +1258,48 @@ def pipeline_batches(ctx):
                   "inside spe + 2 sloss <= dup + 2 floss), all seven algorithms, against Model/CliRun.v: same ending (status 0 / refused / no solution / exception), "
                   "same printed minimum cost, under ALL the same SET of output dictionaries (items of every dictionary compared, Newick strings and syntenies literally), "
                   "under ANY one dictionary that belongs to the model's ALL set"),
+    )
+
+    # ---- 5. the evaluator glue of the whole-command theorems against from_dict(...).cost() / node_event -------------
+    # (the generator resumes here after main.py has run the cli_pipeline batch: `written` holds every distinct line of
+    # the runs that ended with status 0; under --replay the stored case replaces the empty list)
+    gcases = list(written.values())
+    cap = 1200 if quick else 20000
+    if len(gcases) > cap:
+        gcases = [gcases[i] for i in sorted(rng.sample(range(len(gcases)), cap))]
+    gseen = {"costs": {"finite": 0, "infinite": 0, "raises_or_other": 0}, "events": {}, "lines_with_transfer": 0}
+    ctx.dist["cli_glue_observed"] = gseen
+
+    def observe_glue(c, r):               # parent process
+        v = r.get("cost")
+        kind = "finite" if isinstance(v, int) else "infinite" if v in ("inf", "-inf") else "raises_or_other"
+        gseen["costs"][kind] += 1
+        evs = r.get("events")
+        if isinstance(evs, list):
+            for e in evs:
+                gseen["events"][e] = gseen["events"].get(e, 0) + 1
+            gseen["lines_with_transfer"] += any(e.startswith("TRANSFER") for e in evs)
+
+    ctx.dist["cli_glue"] = {
+        "cases": len(gcases),
+        "distinct_lines_written_in_cli_pipeline": len(written),
+        "super_reconciliation_objects": sum(1 for c in gcases if '"syntenies"' in c["line"]),
+        "unordered_objects": sum(1 for c in gcases if json.loads(c["line"]).get("ordered") is False),
+        "by_algorithm": {a: sum(1 for c in gcases if c["algo"] == a) for a in sorted({c["algo"] for c in gcases})},
+        "by_policy": {pol: sum(1 for c in gcases if c["policy"] == pol) for pol in ("any", "all")},
+    }
+    yield Batch(
+        name="cli_glue", header=GLUE_HEADER, run="run_glue", eqb="glue_eqb",
+        ty_in="out_obj", ty_out="glue_out",
+        cases=gcases, impl=impl_glue, observe=observe_glue, enc_in=enc_glue_in, enc_out=enc_glue_out,
+        oracle=oracle_glue,
+        nontrivial=lambda c, r: bool(r.get("parsed")) and isinstance(r.get("events"), list) and len(r["events"]) >= 2,
+        exhaustive=False, shard=150,
+        describe=("every distinct line written by the real `reconcile` in the cli_pipeline batch (status-0 runs, both policies, integer unit costs, transfer cost "
+                  "possibly infinite): Model/CliRun.v's `option_map (fun r => (eval_result (own_num r) r, output_events (routput_of r))) (parse_back d)` on the "
+                  "line's dictionary d against the package's `from_dict(json.loads(line))` followed by `.cost()` (exact: integer or infinity) and `node_event` of "
+                  "every internal object node in pre-order (a transfer with the side `_cost_rec` keeps); this is the expression the theorems "
+                  "C12_cli_objects_parse_back* equate with the printed minimum, and the oracle checks cost() == printed minimum on the implementation alone"),
     )
 
 
